@@ -3,19 +3,24 @@
 (* that address mapped resources or their would-be children (the failing rest is covered by the *)
 (* exhaustive product).  The history is printed as JSON when it reaches HistLen.                *)
 EXTENDS DavTreeMC
-CONSTANT HistLen
+CONSTANTS HistLen, CondMix
 VARIABLE hist
 \* paths worth addressing in state t: mapped ones and the would-be children of collections
 NearPaths(t) == {Root} \cup DOMAIN t
                 \cup {Append(q, n) : q \in {x \in DOMAIN t : t[x].k = "c" /\ Len(x) < MaxDepth}, n \in Names}
+CondFor(k) == IF k = "f" THEN {"unset", "unset", "star", "cur", "cur", "stale", "other", "bad"} ELSE {"unset", "unset", "star", "other", "bad"}
 GenReq(t) ==
-  LET m == RandomElement({"PUT", "PUT", "MKCOL", "MKCOL", "DELETE", "COPY", "COPY", "MOVE", "MOVE", "GET", "HEAD", "OPTIONS", "PROPFIND"})
-      b == [Base(m, RandomElement(NearPaths(t))) EXCEPT !.c = IF m = "PUT" THEN RandomElement(Contents) ELSE ""]
+  LET m == RandomElement(IF CondMix THEN {"PUT", "PUT", "PUT", "DELETE", "DELETE", "MKCOL", "COPY", "MOVE", "GET", "GET", "HEAD", "HEAD", "PROPFIND", "PROPFIND"}
+                         ELSE {"PUT", "PUT", "MKCOL", "MKCOL", "DELETE", "COPY", "COPY", "MOVE", "MOVE", "GET", "HEAD", "OPTIONS", "PROPFIND"})
+      p == RandomElement(NearPaths(t))
+      b == [Base(m, p) EXCEPT !.c = IF m = "PUT" THEN RandomElement(Contents) ELSE ""]
   IN CASE m \in {"COPY", "MOVE"} ->
             [b EXCEPT !.dform = "path", !.dp = RandomElement(NearPaths(t)),
                       !.depth = RandomElement(IF m = "COPY" THEN {"absent", "0", "infinity"} ELSE {"absent", "infinity"}),
                       !.ow = RandomElement({"absent", "T", "F"})]
        [] m = "PROPFIND" -> [b EXCEPT !.depth = RandomElement({"absent", "0", "1", "infinity"}), !.pform = RandomElement({"empty", "fileinfo"})]
+       [] m \in {"PUT", "DELETE"} /\ CondMix ->
+            [b EXCEPT !.ifm = RandomElement(CondFor(Kind(t, p))), !.ifnm = RandomElement(CondFor(Kind(t, p)))]
        [] OTHER -> b
 SInit == Init /\ hist = << >>
 \* one random successor per step (RandomElement draws from TLC's seeded generator): cheap simulation
